@@ -1,3 +1,4 @@
 import Cgm.Lemmas.AuditCmd
 import Cgm.Props.C04
+import Cgm.Props.C04b
 #audit_namespace Cg.C04
